@@ -91,15 +91,14 @@ func main() {
 }
 
 func mcModule(maxOps int) (string, string) {
-	var b strings.Builder
-	b.WriteString("---- MODULE MC_VecAgg ----\nEXTENDS VecAgg\n")
-	b.WriteString("MCKeyOf == <<1, 2, 3, 4, 5>>\nMCBatches == << <<1, 2, 3>>, <<4, 5>> >>\nMCPreds == << {1} >>\n")
-	all := `{"load", "addvec", "delvec", "compact", "delete"}`
-	shape := []string{`{"load"}`}
+	all := []string{"load", "addvec", "delvec", "compact", "delete"}
+	m := &lakeh.AbsModel{Name: "VecAgg", MaxOps: maxOps, KeyOf: []int{1, 2, 3, 4, 5}, NullKey: 90, Batches: batches, ObjMode: "all",
+		Branches: []string{"main"}, OpKinds: all, Preds: [][]int{{1}}, Dir: "asc",
+		Invariants: []string{"VecAgrees", "VectorsIrrelevant", "VecExport"}}
+	m.Shape = [][]string{{"load"}}
 	for i := 1; i < maxOps; i++ {
-		shape = append(shape, all)
+		m.Shape = append(m.Shape, all)
 	}
-	fmt.Fprintf(&b, "MCShape == <<%s>>\n", strings.Join(shape, ", "))
 	var cfgs []string
 	for _, c := range colConfigs {
 		var s, x []string
@@ -109,26 +108,15 @@ func mcModule(maxOps int) (string, string) {
 		}
 		cfgs = append(cfgs, fmt.Sprintf("[s |-> <<%s>>, x |-> <<%s>>]", strings.Join(s, ", "), strings.Join(x, ", ")))
 	}
-	fmt.Fprintf(&b, "MCCols == <<%s>>\n====\n", strings.Join(cfgs, ",\n  "))
-	cfg := fmt.Sprintf(`\* C09: LakeAbs histories x column configurations (generated by harness/props/c09)
-SPECIFICATION VSpec
-CONSTANTS
-  MaxOps = %d
-  KeyOf <- MCKeyOf
-  NullKey = 90
-  Batches <- MCBatches
-  ObjMode = "all"
-  BranchNames = {"main"}
-  OpKinds = %s
-  PredKeys <- MCPreds
-  Shape <- MCShape
-  Export = TRUE
-  ColConfigs <- MCCols
-  NLegs = 2
-  MaxDict = 256
-INVARIANTS VecAgrees VectorsIrrelevant VecExport
-`, maxOps, all)
-	return b.String(), cfg
+	// the LakeAbs part of the model module and configuration comes from lakeh (one
+	// source of truth for LakeAbs' constants); VecAgg's own constants are added
+	mod := m.MCModule("MC_VecAgg")
+	mod = strings.Replace(mod, "EXTENDS LakeAbs", "EXTENDS VecAgg", 1)
+	mod = strings.Replace(mod, "====", fmt.Sprintf("MCCols == <<%s>>\n====", strings.Join(cfgs, ",\n  ")), 1)
+	cfg := m.Cfg(false)
+	cfg = strings.Replace(cfg, "SPECIFICATION Spec", "SPECIFICATION VSpec", 1)
+	cfg = strings.Replace(cfg, "CONSTANTS\n", "CONSTANTS\n  ColConfigs <- MCCols\n  NLegs = 2\n  MaxDict = 256\n", 1)
+	return mod, cfg
 }
 
 func parseVHist(out string) ([]vhist, error) {
@@ -176,7 +164,7 @@ func run(c *core.Ctx) error {
 	if c.Replay != "" {
 		return h.replay()
 	}
-	maxOps, nhist := 4, 36
+	maxOps, nhist := 4, 48
 	if !c.Quick() {
 		maxOps, nhist = 5, 600
 	}
@@ -400,6 +388,12 @@ func sameAsg(a, b [][]int) bool {
 func (h *harness) replayHist(vh *vhist) error {
 	c := h.c
 	job := h.jobOf(vh)
+	// query after the last step and after every step at which the rule fires
+	for i, p := range vh.pred {
+		if i == len(vh.pred)-1 || p["cbs"].Vec {
+			job.At = append(job.At, i+1)
+		}
+	}
 	results, ops, err := h.runChild(job)
 	if err != nil {
 		return fmt.Errorf("history %s: %w", vh.Hist.String(), err)
@@ -456,7 +450,7 @@ func (h *harness) replayHist(vh *vhist) error {
 				if r.Vec != p.Vec {
 					c.Drift("planner rule: `%s` after %s: spec vectorized=%v real plan vectorized=%v", queryText[q], prefix(vh, i), p.Vec, r.Vec)
 				}
-				forced := sameAsg(r.Trace, ap.Asg) || q == "cbk"
+				forced := sameAsg(r.Trace, ap.Asg) || q == "cbk" || !r.Vec
 				if forced {
 					h.feat["forced assignment observed"]++
 				}
